@@ -44,7 +44,9 @@ MCInit == \/ \E s \in Strs : InitWith([op |-> "pct", in |-> s])
           \/ \E p \in {"connect", "grpc", "grpcweb"}, u \in {"fresh", "otherclient", "forwarded"},
                 b \in {"http://verif.test", "http://verif.test/api/v1", "http://verif.test/", "https://verif.test:8443/a.b/c/",
                         "http://verif.test/pkg.Other"} :
-                InitWith([op |-> "spec_reuse", proto |-> p, used |-> u, base |-> b])
+                \E hs \in {"rooted", "unrooted", "prefix", "fullurl"} :
+                  /\ (hs # "rooted" => u = "fresh")
+                  /\ InitWith([op |-> "spec_reuse", proto |-> p, used |-> u, base |-> b, text |-> hs])
           \/ \E p \in {"connect", "grpc", "grpcweb"}, u \in {"badoption", "badurl"} :
                 InitWith([op |-> "client_init_fail", proto |-> p, used |-> u])
           \* C15: a handler returns its context's error; the context ended on the server side alone
